@@ -3,7 +3,8 @@ mostly valid, with a separate stream of seeded declaration errors (duplicate cla
 inheritance cycle, undefined callee, wrong arity, `new` of an undeclared class).  Each graph renders to Bloch source
 in any order of its declarations and to the `decl` line of the Lean driver (Sem/Decls.lean)."""
 
-DEFECTS = ["dup-class", "dup-function", "missing-base", "cycle", "self-base", "undefined-callee", "wrong-arity", "undefined-new"]
+DEFECTS = ["dup-class", "dup-function", "missing-base", "cycle", "self-base", "undefined-callee", "wrong-arity", "undefined-new",
+           "new-abstract", "new-abstract", "passthrough", "passthrough"]
 
 
 class DeclGraph:
@@ -23,13 +24,28 @@ class DeclGraph:
         for i, c in enumerate(order):
             base[c] = rng.choice(order[:i]) if i and rng.random() < 0.7 else None
 
+        # obligations: a class may declare bodyless virtual methods (unique names), descendants implement a random part of what
+        # they still owe; a class that owes something (or is declared abstract) must not be instantiated
+        self.abst = {}
+        owes = {}
+        for c in order:                                   # bases come before derived classes in `order`
+            inherited = list(owes.get(base[c], [])) if base[c] else []
+            own = ["a_%s_%d" % (c, j) for j in range(rng.choice([0, 0, 0, 1, 1, 2]))]
+            impl = [m for m in inherited if rng.random() < 0.6]
+            still = [m for m in inherited + own if m not in impl]
+            declared = bool(still) and rng.random() < 0.7 or rng.random() < 0.05
+            owes[c] = still
+            self.abst[c] = [declared, own, impl]
+        concrete = [c for c in cnames if not self.abst[c][0] and not owes[c]]
+        self.abstract_names = [c for c in cnames if c not in concrete]
+
         def body():
             calls = []
             for _ in range(rng.choice([0, 0, 1, 1, 2, 3])):
                 g = rng.choice(fnames[1:]) if len(fnames) > 1 else None
                 if g:
                     calls.append([g, ar[g]])
-            news = [rng.choice(cnames) for _ in range(rng.choice([0, 0, 1, 2]))] if cnames else []
+            news = [rng.choice(concrete) for _ in range(rng.choice([0, 0, 1, 2]))] if concrete else []
             if rng.random() < 0.1:
                 news.append("Object")
             return calls, news
@@ -71,6 +87,18 @@ class DeclGraph:
             rng.choice(self.items)[3].append([g, ar[g] + rng.choice([1, 2]) if ar[g] == 0 or rng.random() < 0.5 else ar[g] - 1])
         elif defect == "undefined-new":
             rng.choice(self.items)[4].append("Phantom")
+        elif defect == "passthrough":
+            # an obligation declared at the top of a chain, handed down through classes that neither implement it nor are all
+            # declared abstract, to a leaf that is not declared abstract either and is instantiated
+            pool = ["Shape", "Polygon", "Square", "Base", "Mid", "Leaf", "Zeta", "Alpha", "Node", "Q", "M1", "Widget", "Ab", "Top"]
+            depth = rng.choice([3, 3, 4, 5])
+            names = rng.sample(pool, depth)
+            for i, nm in enumerate(names):
+                self.abst[nm] = [i == 0 or (i < depth - 1 and rng.random() < 0.5), ["duty_%s" % nm] if i == 0 else [], []]
+                self.items.insert(rng.randrange(len(self.items) + 1), ["c", nm, names[i - 1] if i else None, [], []])
+            rng.choice(self.items)[4].append(names[-1])
+        elif defect == "new-abstract" and self.abstract_names:
+            rng.choice(self.items)[4].append(rng.choice(self.abstract_names))
         else:
             return None
         return defect
@@ -90,8 +118,11 @@ class DeclGraph:
     def render_item(self, it):
         if it[0] == "c":
             _t, name, base, calls, news = it
-            return "class %s%s { public constructor() -> %s = default; public function m() -> void { %s } }" % (
-                name, (" extends " + base) if base else "", name, self._stmts(calls, news))
+            declared, own, impl = self.abst.get(name, [False, [], []])
+            extra = "".join(" public virtual function %s() -> int;" % m for m in own)
+            extra += "".join(" public override function %s() -> int { return %d; }" % (m, len(m)) for m in impl)
+            return "%sclass %s%s { public constructor() -> %s = default; public function m() -> void { %s }%s }" % (
+                "abstract " if declared else "", name, (" extends " + base) if base else "", name, self._stmts(calls, news), extra)
         _t, name, k, calls, news = it
         return "function %s(%s) -> void { %s }" % (name, ", ".join("int a%d" % i for i in range(k)), self._stmts(calls, news))
 
@@ -107,7 +138,9 @@ class DeclGraph:
             calls = "+".join("%s/%d" % (g, k) for g, k in it[3]) or "-"
             news = "+".join(it[4]) or "-"
             if it[0] == "c":
-                parts.append("c,%s,%s,%s,%s" % (it[1], it[2] or "-", calls, news))
+                declared, own, impl = self.abst.get(it[1], [False, [], []])
+                parts.append("c,%s,%s,%s,%s,%d,%s,%s" % (it[1], it[2] or "-", calls, news, 1 if declared else 0,
+                                                         "+".join(own) or "-", "+".join(impl) or "-"))
             else:
                 parts.append("f,%s,%d,%s,%s" % (it[1], it[2], calls, news))
         return "decl " + ";".join(parts)
